@@ -249,6 +249,45 @@ func c17One(c *Ctx, rng *rand.Rand, m *Model, stream string) {
 			walk(r.Rewrite)
 		}
 	}
+	// multiplicity: one line per occurrence. Every computed-userset leaf of every rewrite gives one rewrite/computed
+	// line whose source is a relation node, and nothing else does (operators are the source of the other rewrite
+	// lines, direct and tuple-to-userset lines have their own kinds); so the two counts must agree, repeated
+	// operands (`a or a`, `a but not a`) included.
+	{
+		isRel := map[int64]bool{}
+		for _, n := range nodes {
+			if n.NodeType() == graph.SpecificTypeAndRelation {
+				isRel[n.ID()] = true
+			}
+		}
+		got := 0
+		for _, l := range lines {
+			if isRel[l.src] && (l.et == int(graph.RewriteEdge) || l.et == int(graph.ComputedEdge)) {
+				got++
+			}
+		}
+		want := 0
+		var count func(u *U)
+		count = func(u *U) {
+			if u == nil {
+				return
+			}
+			if u.Kind == "cu" {
+				want++
+			}
+			for _, ch := range u.Children {
+				count(ch)
+			}
+		}
+		for _, t := range m.Types {
+			for _, r := range t.Rels {
+				count(r.Rewrite)
+			}
+		}
+		if got != want {
+			fail(fmt.Sprintf("the rewrites of the model contain %d computed-userset operands but the graph has %d rewrite/computed lines leaving relation nodes (one line per occurrence is what the rewrite dictates)", want, got), map[string]any{"dot": dot})
+		}
+	}
 	// lookup: exactly the type, relation and wildcard nodes
 	for _, n := range nodes {
 		got, err := g.GetNodeByLabel(n.Label())
